@@ -7,6 +7,8 @@ D=/tmp/seed/${P}${S}; W=$D/repo; ID=${P}${S}
 export RUST_BACKTRACE=0 CARGO_NET_OFFLINE=true
 [ -f $D/out/patch.diff ] || { echo "no patch"; exit 2; }
 cd $W && git checkout -q -- . && git clean -fdq
+# confirm against /repo's CURRENT head (fix: commits may have landed since the change was written)
+HEADREV=$(git -C /repo rev-parse --short HEAD); git checkout -q --detach $HEADREV
 git apply --check $D/out/patch.diff || { echo "patch does not apply to scratch worktree"; exit 2; }
 chmod +x $D/out/demo.sh 2>/dev/null
 # demo on the unchanged tree
@@ -32,15 +34,15 @@ git -C /repo checkout -q -- . ; git -C /repo clean -fdq -- sudachi sudachi-cli p
 mkdir -p /verif/seeded/$ID
 cp $D/out/patch.diff $D/out/meta.json $D/out/demo.sh /verif/seeded/$ID/ 2>/dev/null
 for f in $D/out/*; do case "$f" in *patch.diff|*meta.json|*demo.sh) ;; *) cp -r "$f" /verif/seeded/$ID/ ;; esac; done
-python3 - "$ID" "$b" "$suite" "$d0" "$d1" "$res" <<'PY'
+python3 - "$ID" "$b" "$suite" "$d0" "$d1" "$res" "$HEADREV" <<'PY'
 import json,sys
-ID,b,suite,d0,d1,res=sys.argv[1:7]
+ID,b,suite,d0,d1,res,head=sys.argv[1:8]
 p=f'/verif/seeded/{ID}/meta.json'
 try: m=json.load(open(p))
 except Exception: m={"property":ID[:3]}
 m["confirmed_by_framework_author"]={"build_exit":int(b),"suite_pass_fail":suite,"demo_exit_unchanged":int(d0),"demo_exit_patched":int(d1),
   "ran":"seedtest.sh: demo.sh on the unchanged scratch worktree; git apply patch; cargo build --workspace --offline; cargo test --workspace --no-fail-fast --offline; demo.sh again; restore",
-  "checks(1=VIOLATION reported)":res.strip()}
+  "checks(1=VIOLATION reported)":res.strip(),"repo_head":head}
 json.dump(m,open(p,'w'),indent=1,ensure_ascii=False)
 PY
 echo "filed /verif/seeded/$ID  [$res ]"
